@@ -7,7 +7,7 @@ git -C /repo apply "$P" || { echo "patch does not apply"; exit 2; }
 # evidence files record the unchanged tree: keep them aside while the changed tree is checked
 rm -rf /verif/.evidence.keep && cp -r /verif/evidence /verif/.evidence.keep
 for prop in "$@"; do
-  out=$(cd /verif && ./check $prop 2>&1)
+  out=$(cd /verif && ./check $prop ${SEEDTIER:+--tier $SEEDTIER} 2>&1)
   echo "== $prop exit=$? : $(echo "$out" | tail -1 | cut -c1-150)"
   echo "$out" | grep "^VIOLATION" | sed 's/replay=[^ ]* //' | cut -c1-230 | head -8
 done
